@@ -39,6 +39,7 @@ typedef struct sim_config {
 	uint32_t sndbuf_min, sndbuf_max; // per-connection send capacity drawn
 	uint64_t conn_delay_max_ns;      // connect completion delay
 	double   accept_err_p;
+	double   unix_backlog_full_p; // connect() on a unix stream socket finds the listener's backlog full: EAGAIN (connect(2), Linux)
 	// alloc
 	int64_t fail_alloc_k;   // fail k-th allocation (1-based), 0 = none
 	double  fail_alloc_p;   // probabilistic failure
